@@ -304,6 +304,8 @@ func runC02One(args []string) int {
 	o.Nontriv = len(fs.Groups) > 0 || len(fr.Groups) > 0 || fs.Error.Err != nil || fr.Error.Err != nil
 	obsS, obsR := "None", "None"
 	var expandPairs [][2]int
+	var injectCases []string
+	nSplit := len(strings.Split(string(content), "\n"))
 	for _, v := range c02Variants {
 		v.Names = names
 		res := runPipeline(file, v.Strict, v.Schema, v.Names, 30*time.Second)
@@ -332,6 +334,25 @@ func runC02One(args []string) int {
 				}
 			}
 			for _, p := range res.Problems {
+				if p.InjRun && len(injectCases) < 4 {
+					ds := make([]string, 0, len(p.DiagLines))
+					for _, ls := range p.DiagLines {
+						xs := make([]string, 0, len(ls))
+						for _, x := range ls {
+							xs = append(xs, fmt.Sprintf("(%d)%%Z", x))
+						}
+						ds = append(ds, coqList(xs))
+					}
+					obs := "None"
+					if !p.InjPanic {
+						xs := make([]string, 0, len(p.InjLines))
+						for _, x := range p.InjLines {
+							xs = append(xs, fmt.Sprintf("(%d)%%Z", x))
+						}
+						obs = "(Some " + coqList(xs) + ")"
+					}
+					injectCases = append(injectCases, fmt.Sprintf("((%d)%%Z, %s, %s)", nSplit, coqList(ds), obs))
+				}
 				if len(expandPairs) < 4 {
 					expandPairs = append(expandPairs, [2]int{p.First, p.Last})
 				}
@@ -360,8 +381,8 @@ func runC02One(args []string) int {
 		}
 	}
 	if term != "" {
-		o.Term = fmt.Sprintf("{| c_base := %s;\n c_entries_strict := %s;\n c_entries_relaxed := %s;\n c_lone_cr := %s;\n c_expand := %s |}",
-			term, obsS, obsR, coqBool(hasLoneCR(content)), coqExpandCases(id, expandPairs))
+		o.Term = fmt.Sprintf("{| c_base := %s;\n c_entries_strict := %s;\n c_entries_relaxed := %s;\n c_lone_cr := %s;\n c_expand := %s;\n c_inject := %s |}",
+			term, obsS, obsR, coqBool(hasLoneCR(content)), coqExpandCases(id, expandPairs), coqList(injectCases))
 	} else {
 		o.Hist = append(o.Hist, "skipped:forest-too-large")
 	}
